@@ -32,7 +32,13 @@ TRUSTED = ["harness OPC oracle (independent re-implementation of OPC lookup sema
 CT_NS = "http://schemas.openxmlformats.org/package/2006/content-types"
 REL_NS = "http://schemas.openxmlformats.org/package/2006/relationships"
 SEGS = ["ppt", "slides", "slidesX", "media", "a", "ab", "b", "docProps", "x.y", "Deep"]
-FILES = ["p1.xml", "p2.xml", "data.bin", "other.bin", "third.bin", "UPPER.BIN", "Mixed.Bin", "img.png", "IMG2.PNG", "pic.jpg", "blob.dat", "noext", "s1.xml", "s2.xml", "movie.mp4"]
+FILES = ["p1.xml", "p2.xml", "data.bin", "other.bin", "third.bin", "UPPER.BIN", "Mixed.Bin", "img.png", "IMG2.PNG", "pic.jpg", "blob.dat", "noext", "s1.xml", "s2.xml", "movie.mp4",
+         "Picture%201.png", "a%41.bin", "photo.jpeg", "scan.tiff"]
+# image types as other producers declare them: not always the canonical one for the extension (an alias, or a .png that
+# holds a JPEG and says so in an Override)
+IMAGE_TYPES = ["image/png", "image/jpeg", "image/jpg", "image/gif", "image/tiff", "image/x-png"]
+EXTERNAL = ["http://example.com/x?a=1&b=2", "file:///C:/a b.txt", "../not/a/part", " http://example.com/landing ", "file:///C:/Shared  Docs/x.txt",
+            "http://e.example/a%20b%26c?q=%3Cx%3E", "mailto:a@b.example?subject=100%25", "http://e.example/tab\there"]
 NEUTRAL = ["application/x-verif-a", "application/x-verif-b", "application/x-verif+xml"]
 RT = "http://example.com/rel/%s"
 
@@ -59,6 +65,8 @@ def gen_package(rng, dct, dangling=False):
     for nm in names:
         ext = nm.rsplit(".", 1)[1] if "." in nm.rsplit("/", 1)[1] else ""
         cands = [ct for e, ct in dct if e == ext.lower() and e not in ("xml", "rels")] + NEUTRAL
+        if ext.lower() in ("png", "jpg", "jpeg", "tiff") and rng.random() < 0.5:
+            cands = IMAGE_TYPES
         ct = rng.choice(cands)
         types[nm] = ct
         el = ext.lower()
@@ -124,10 +132,21 @@ def gen_package(rng, dct, dangling=False):
         src = rng.choice(["/"] + reach)
         r = rng.random()
         if r < 0.25:
-            add(src, rng.choice(["http://example.com/x?a=1&b=2", "file:///C:/a b.txt", "../not/a/part"]), external=True)
+            add(src, rng.choice(EXTERNAL), external=True)
         else:
             tgt = rng.choice(reach)
             add(src, ref(src, tgt))
+    if rng.random() < 0.3:
+        # the same relationship twice under two ids (PowerPoint does this for two runs linked to one URL, for a picture
+        # used twice): both must survive
+        cands_ = [(s_, r_) for s_, l_ in rels.items() for r_ in l_]
+        if cands_:
+            s_, r_ = rng.choice(cands_)
+            used = {x[0] for x in rels[s_]}
+            rid = "rId%d" % (len(rels[s_]) + 1)
+            while rid in used:
+                rid += "7"
+            rels[s_].append((rid, r_[1], r_[2], r_[3]))
     if dangling:
         src = rng.choice(["/"] + reach)
         add(src, ref(src, "/ppt/NULL"))
